@@ -71,15 +71,17 @@ theorem isSome_ne_none {α} {o : Option α} (h : o.isSome = true) : o ≠ none :
   cases o <;> simp at h ⊢
 
 theorem CharRow.usable_spec {c : CharRow} (h : c.usable = true) :
-    c.panicked = false ∧ c.typ ≠ none ∧
-    (c.nargs = 0 → c.format ≠ .unknown ∧ c.unit ≠ .unknown ∧ c.perms ≠ [] ∧ (∀ p ∈ c.perms, p ≠ Perm.unknown) ∧ c.perms.Nodup) := by
+    c.panicked = false ∧ c.typ ≠ none ∧ c.unit ≠ .unknown ∧
+    c.perms ≠ [] ∧ (∀ p ∈ c.perms, p ≠ Perm.unknown) ∧ c.perms.Nodup ∧
+    (c.untyped = false → c.format ≠ .unknown) := by
   unfold CharRow.usable at h
   simp only [Bool.and_eq_true, Bool.or_eq_true, Bool.not_eq_true', bne_iff_ne, ne_eq] at h
-  obtain ⟨⟨h1, h2⟩, h3⟩ := h
-  refine ⟨h1, isSome_ne_none h2, fun h0 => ?_⟩
-  rcases h3 with h3 | h3
-  · exact absurd h0 h3
-  · exact ⟨h3.1.1, h3.1.2, permsValid_spec h3.2⟩
+  obtain ⟨⟨⟨⟨h1, h2⟩, h3⟩, h4⟩, h5⟩ := h
+  obtain ⟨p1, p2, p3⟩ := permsValid_spec h4
+  refine ⟨h1, isSome_ne_none h2, h3, p1, p2, p3, fun hu => ?_⟩
+  rcases h5 with h5 | h5
+  · exact h5
+  · rw [hu] at h5; exact absurd h5 (by decide)
 
 theorem SvcRow.usable_spec {s : SvcRow} (h : s.usable = true) :
     s.panicked = false ∧ s.typ ≠ none ∧ ∀ t ∈ s.chars, t ≠ none := by
